@@ -666,3 +666,198 @@ Section Callbacks.
     destruct (K3 _ _ HK Hcl Hpv Hsk) as [[]|Hr0]. exact Hr0.
   Qed.
 End Callbacks.
+
+(** ================= the sequential walk's fuel ================= *)
+Definition indom (s : dset) (c : cid) : bool := match find s c with Some _ => true | None => false end.
+
+Definition unvis (g : graph) (s : dset) : nat :=
+  length (filter (fun p => negb (indom s (fst p))) g).
+
+Lemma filter_length_le : forall (A : Type) (f h : A -> bool) (l : list A),
+  (forall x, In x l -> f x = true -> h x = true) -> (length (filter f l) <= length (filter h l))%nat.
+Proof.
+  intros A f h l. induction l as [|a l IH]; intros H; [apply le_n|]. cbn [filter].
+  assert (IH' : (length (filter f l) <= length (filter h l))%nat).
+  { apply IH. intros x Hx. apply H. right. exact Hx. }
+  destruct (f a) eqn:Hf.
+  - rewrite (H a (or_introl eq_refl) Hf). cbn [length]. lia.
+  - destruct (h a); cbn [length]; lia.
+Qed.
+
+Lemma filter_length_lt : forall (A : Type) (f h : A -> bool) (l : list A) a,
+  (forall x, In x l -> f x = true -> h x = true) -> In a l -> f a = false -> h a = true ->
+  (length (filter f l) < length (filter h l))%nat.
+Proof.
+  intros A f h l. induction l as [|b l IH]; intros a H Hin Hfa Hha; [destruct Hin|]. cbn [filter].
+  assert (Hle : (length (filter f l) <= length (filter h l))%nat).
+  { apply filter_length_le. intros x Hx. apply H. right. exact Hx. }
+  destruct Hin as [->|Hin].
+  - rewrite Hfa, Hha. cbn [length]. lia.
+  - assert (Hlt : (length (filter f l) < length (filter h l))%nat).
+    { apply (IH a); try assumption. intros x Hx. apply H. right. exact Hx. }
+    destruct (f b) eqn:Hf.
+    + rewrite (H b (or_introl eq_refl) Hf). cbn [length]. lia.
+    + destruct (h b); cbn [length]; lia.
+Qed.
+
+Lemma unvis_mono : forall g s s',
+  (forall x, indom s x = true -> indom s' x = true) -> (unvis g s' <= unvis g s)%nat.
+Proof.
+  intros g s s' H. unfold unvis. apply filter_length_le. intros p _ Hp.
+  apply negb_true_iff in Hp. apply negb_true_iff.
+  destruct (indom s (fst p)) eqn:E; [|reflexivity]. rewrite (H _ E) in Hp. discriminate.
+Qed.
+
+Lemma unvis_lt : forall g s s' c n,
+  (forall x, indom s x = true -> indom s' x = true) ->
+  In (c, n) g -> indom s c = false -> indom s' c = true -> (unvis g s' < unvis g s)%nat.
+Proof.
+  intros g s s' c n H Hin Hs Hs'. unfold unvis. apply filter_length_lt with (a := (c, n)); cbn [fst].
+  - intros p _ Hp. apply negb_true_iff in Hp. apply negb_true_iff.
+    destruct (indom s (fst p)) eqn:E; [|reflexivity]. rewrite (H _ E) in Hp. discriminate.
+  - exact Hin.
+  - rewrite Hs'. reflexivity.
+  - rewrite Hs. reflexivity.
+Qed.
+
+Lemma lookup_absent : forall g c, (forall n, ~ In (c, n) g) -> lookup g c = missing_node.
+Proof.
+  induction g as [|[c' n'] r IH]; intros c H; [reflexivity|]. cbn [lookup].
+  destruct (N.eqb_spec c c') as [->|Hne].
+  - exfalso. apply (H n'). left. reflexivity.
+  - apply IH. intros n Hin. apply (H n). right. exact Hin.
+Qed.
+
+Lemma lookup_in_or_missing : forall g c, (exists n, In (c, n) g) \/ ok_links g c = [].
+Proof.
+  intros g c. induction g as [|[c' n'] r IH].
+  - right. reflexivity.
+  - destruct (N.eqb_spec c c') as [->|Hne].
+    + left. exists n'. left. reflexivity.
+    + destruct IH as [(n & Hin)|Hk]; [left; exists n; right; exact Hin|].
+      right. unfold ok_links in *. cbn [lookup]. destruct (N.eqb_spec c c'); [contradiction | exact Hk].
+Qed.
+
+(** kids of [process]: at depth d+1, and none unless the node's links are followed *)
+Lemma process_kids : forall fl g cf root c d k k' kids,
+  process fl g cf root c d k = (k', kids) ->
+  k_set k' = k_set k /\ (kids = [] \/ kids = map (fun x => (x, d + 1)) (ok_links g c)).
+Proof.
+  intros fl g cf root c d k k' kids H. unfold process in H.
+  match type of H with (match ?h with _ => _ end) = _ => destruct h as [[[e'|] calls]|] end;
+    inversion H; subst; cbn [k_set]; auto.
+Qed.
+
+Section Fuel.
+  Variable fl : flags.
+  Variable g : graph.
+  Variable cf : cfg.
+  Variable root : cid.
+  Local Notation lim := (c_lim cf).
+
+  (** the set only grows along a sequential walk *)
+  Lemma work_dom : forall c d k b k' kids,
+    work fl g cf root c d k = (b, (k', kids)) ->
+    forall x, indom (k_set k) x = true -> indom (k_set k') x = true.
+  Proof.
+    intros c d k b k' kids Hw x Hx. unfold work in Hw.
+    destruct (c_skip_root cf && (d =? 0)).
+    - destruct (process fl g cf root c d k) as [k1 kids1] eqn:Hp. inversion Hw; subst.
+      destruct (process_kids _ _ _ _ _ _ _ _ _ Hp) as [Hs _]. rewrite Hs. exact Hx.
+    - destruct (visit (c_lim cf) (k_set k) c d) as [b0 set'] eqn:Hv.
+      assert (Hset' : indom set' x = true).
+      { destruct (visit_spec _ _ _ _ _ _ Hv) as [(_ & Hs0 & _)|(_ & Hs0 & _)]; subst set'; [exact Hx|].
+        unfold indom in *. rewrite find_cons. destruct (x =? c)%N; [reflexivity | exact Hx]. }
+      destruct b0.
+      + destruct (process fl g cf root c d (with_set k set')) as [k1 kids1] eqn:Hp. inversion Hw; subst.
+        destruct (process_kids _ _ _ _ _ _ _ _ _ Hp) as [Hs _]. rewrite Hs. exact Hset'.
+      + inversion Hw; subst. exact Hset'.
+  Qed.
+
+  Lemma seqw_dom : forall f c d k lg k' lg' a,
+    seqw f fl g cf root c d k lg = Some (k', lg', a) ->
+    forall x, indom (k_set k) x = true -> indom (k_set k') x = true.
+  Proof.
+    induction f as [|f IH]; intros c d k lg k' lg' a H x Hx; [discriminate|].
+    rewrite seqw_unfold in H.
+    destruct (work fl g cf root c d k) as [b [k1 kids]] eqn:Hw.
+    pose proof (work_dom _ _ _ _ _ _ Hw x Hx) as Hx1.
+    destruct (k_crash k1); [inversion H; subst; exact Hx1|].
+    destruct (k_errs k1); [|inversion H; subst; exact Hx1].
+    clear Hw. revert k1 H Hx1. generalize (if c_skip_root cf && (d =? 0) then lg else lg ++ [(c, d, b)]).
+    induction kids as [|[y dy] r IHk]; intros lg0 k1 H Hx1.
+    - cbn in H. inversion H; subst. exact Hx1.
+    - cbn [walk_children] in H.
+      destruct (seqw f fl g cf root y dy k1 lg0) as [[[k2 lg2] [|]]|] eqn:Hs; try discriminate.
+      + inversion H; subst. eapply IH; eassumption.
+      + eapply IHk; [exact H|]. eapply IH; eassumption.
+  Qed.
+
+  (** enough fuel for the recursion at depth [d] in state [k] *)
+  Definition enough (f : nat) (d : Z) (k : core) : Prop :=
+    (0 <= lim /\ (Z.to_nat (lim + 1 - d) < f)%nat) \/
+    (lim < 0 /\ (unvis g (k_set k) + (if (d =? 0)%Z then 1 else 0) < f)%nat).
+
+  Lemma seqw_total : forall f c d k lg,
+    0 <= d -> enough f d k -> exists r, seqw f fl g cf root c d k lg = Some r.
+  Proof.
+    induction f as [|f IH]; intros c d k lg Hd He.
+    { destruct He as [(_ & He)|(_ & He)]; lia. }
+    rewrite seqw_unfold.
+    destruct (work fl g cf root c d k) as [b [k1 kids]] eqn:Hw.
+    destruct (k_crash k1); [eexists; reflexivity|].
+    destruct (k_errs k1); [|eexists; reflexivity].
+    (* what [work] tells about the children *)
+    assert (Hkids : kids = [] \/
+              (kids = map (fun x => (x, d + 1)) (ok_links g c) /\ enough f (d + 1) k1)).
+    { unfold work in Hw. destruct (c_skip_root cf && (d =? 0)) eqn:Hsk.
+      - apply andb_true_iff in Hsk. destruct Hsk as [_ Hz]. apply Z.eqb_eq in Hz. subst d.
+        destruct (process fl g cf root c 0 k) as [k2 kids2] eqn:Hp. inversion Hw; subst.
+        destruct (process_kids _ _ _ _ _ _ _ _ _ Hp) as [Hs [-> | ->]]; [left; reflexivity|].
+        right. split; [reflexivity|]. unfold enough in *. rewrite Hs.
+        destruct He as [(Hl & He)|(Hl & He)]; [left; split; [exact Hl|lia] | right; split; [exact Hl|]].
+        change (0 =? 0) with true in He. change (0 + 1 =? 0) with false. cbn iota in *. lia.
+      - destruct (visit (c_lim cf) (k_set k) c d) as [b0 set'] eqn:Hv.
+        destruct (visit_spec _ _ _ _ _ _ Hv) as [(Hb0 & Hs0 & _)|(Hb0 & Hs0 & Hwi & Hfresh)]; subst b0 set'.
+        + inversion Hw; subst. left. reflexivity.
+        + destruct (process fl g cf root c d (with_set k ((c, d) :: k_set k))) as [k2 kids2] eqn:Hp.
+          inversion Hw; subst.
+          destruct (process_kids _ _ _ _ _ _ _ _ _ Hp) as [Hs [-> | ->]]; [left; reflexivity|].
+          cbn [with_set k_set] in Hs.
+          destruct (lookup_in_or_missing g c) as [(n & Hin)|Hnone]; [|left; rewrite Hnone; reflexivity].
+          right. split; [reflexivity|]. unfold enough in *. rewrite Hs.
+          destruct He as [(Hl & He)|(Hl & He)].
+          * left. split; [exact Hl|]. destruct Hwi as [Hwi|Hwi]; lia.
+          * right. split; [exact Hl|].
+            assert (Hne : (d + 1 =? 0) = false) by (apply Z.eqb_neq; lia). rewrite Hne.
+            assert (Hlt : (unvis g ((c, d) :: k_set k) < unvis g (k_set k))%nat).
+            { apply unvis_lt with (c := c) (n := n); try assumption.
+              - intros x Hx. unfold indom in *. rewrite find_cons. destruct (x =? c)%N; [reflexivity | exact Hx].
+              - unfold indom. destruct Hfresh as [->|(old & _ & _ & Hl0)]; [reflexivity | lia].
+              - unfold indom. rewrite find_cons, N.eqb_refl. reflexivity. }
+            destruct (d =? 0); lia. }
+    destruct Hkids as [->|[-> Hen]]; [eexists; reflexivity|].
+    assert (Hd1 : 0 <= d + 1) by lia.
+    clear Hw. revert Hen. generalize (if c_skip_root cf && (d =? 0) then lg else lg ++ [(c, d, b)]).
+    revert k1. induction (ok_links g c) as [|y r IHr]; intros k1 lg0 Hen; [eexists; reflexivity|].
+    cbn [map walk_children].
+    destruct (IH y (d + 1) k1 lg0 Hd1 Hen) as [[[k2 lg2] a] Hs]. rewrite Hs.
+    destruct a; [eexists; reflexivity|].
+    apply IHr. unfold enough in *. destruct Hen as [Hen|(Hl & Hen)]; [left; exact Hen|].
+    right. split; [exact Hl|].
+    pose proof (unvis_mono g (k_set k1) (k_set k2) (seqw_dom _ _ _ _ _ _ _ _ Hs)). lia.
+  Qed.
+
+  Lemma fuel_seq_enough : exists r, seqw (fuel_seq g cf) fl g cf root root 0 init_core [] = Some r.
+  Proof.
+    apply seqw_total; [lia|]. unfold enough, fuel_seq.
+    destruct (c_lim cf <? 0) eqn:E.
+    - apply Z.ltb_lt in E. right. split; [exact E|]. cbn [init_core k_set].
+      assert (Hall : forall l : graph, (length (filter (fun p => negb (indom [] (fst p))) l) <= length l)%nat).
+      { induction l as [|a l IH]; [apply le_n|]. cbn [filter].
+        destruct (negb (indom [] (fst a))); cbn [length]; lia. }
+      pose proof (Hall g) as Hg. fold (unvis g []) in Hg.
+      change (0 =? 0) with true. cbn iota. lia.
+    - apply Z.ltb_ge in E. left. split; [exact E|]. lia.
+  Qed.
+End Fuel.
